@@ -117,6 +117,7 @@ where T: Stream
             Poll::Pending => Poll::Pending,
             Poll::Ready(None) => {
                 // finished
+                drop(_guard);
                 this.span.take();
                 Poll::Ready(None)
             }
@@ -158,6 +159,7 @@ where T: Sink<I>
             r @ Poll::Pending => r,
             other => {
                 // closed
+                drop(_guard);
                 this.span.take();
                 other
             }
